@@ -201,6 +201,46 @@ theorem C08_witness_cycle (H : Bytes → Bytes) (hlen : ∀ x, (H x).length = 16
   have hp : HashLits.placeholder.length = 1 := by decide
   omega
 
+/-! ### documentation: a layout-dependent array serialiser -/
+
+/-- An array as it lies in memory: `logical` = its elements in index (row-major) order — what the model's `ndarray`
+    carries and what `tobytes(order="C")` yields whatever the layout —, `raw` = its memory buffer, what a layout-dependent
+    serialisation such as `tobytes(order="A")` or a chunked `ravel(order="K")` would feed to the hash. -/
+structure ArrMem where
+  dtype : Bytes
+  shape : Bytes
+  logical : Bytes
+  raw : Bytes
+
+def ArrMem.value (a : ArrMem) : PyVal := .ndarray (ascii "numpyndarray") a.dtype a.shape a.logical
+/-- the hash under the layout-dependent serialisation: same prefix, data = raw buffer -/
+def hashRawBuffer (H : Bytes → Bytes) (a : ArrMem) : Except Err Bytes :=
+  hashAlone H (.ndarray (ascii "numpyndarray") a.dtype a.shape a.raw)
+
+/-- `a = [[0,1],[2,3]]` (uint8), C-contiguous -/
+def arrC : ArrMem := ⟨ascii "uint8", ascii "(2, 2)", [0, 1, 2, 3], [0, 1, 2, 3]⟩
+/-- the same array stored Fortran-contiguous (`np.asfortranarray(a)`) -/
+def arrF : ArrMem := ⟨ascii "uint8", ascii "(2, 2)", [0, 1, 2, 3], [0, 2, 1, 3]⟩
+/-- `a.T = [[0,2],[1,3]]` as a transposed view of `a`: another array over the SAME buffer -/
+def arrT : ArrMem := ⟨ascii "uint8", ascii "(2, 2)", [0, 2, 1, 3], [0, 1, 2, 3]⟩
+
+/-- DOCUMENTATION WITNESS: hashing the raw buffer instead of the logical bytes violates both halves of C08 —
+    (order/layout independence) `arrC` and `arrF` are the same array (`≃`, and the model hashes them equally) but the raw-buffer
+    hash feeds `H` two different byte strings;  (discrimination) `arrC` and `arrT` are different arrays of the grammar `G₀`
+    (so by `C08_discriminates` the model's hashes differ unless `H` collides) but their raw-buffer hashes are EQUAL for every
+    digest function.  The live serialiser (`tobytes(order="C")`) is the model's `logical`; the harness generates every layout. -/
+theorem C08_witness_layout_dependent_serialisation (H : Bytes → Bytes) :
+    (Equiv arrC.value arrF.value ∧ hashAlone H arrC.value = hashAlone H arrF.value
+      ∧ ∃ x y, x ≠ y ∧ hashRawBuffer H arrC = .ok (H x) ∧ hashRawBuffer H arrF = .ok (H y))
+    ∧ (¬ Equiv arrC.value arrT.value ∧ inG0 arrC.value = true ∧ inG0 arrT.value = true
+      ∧ hashRawBuffer H arrC = hashRawBuffer H arrT) := by
+  refine ⟨⟨by simp [ArrMem.value, arrC, arrF, Equiv], rfl, _, _, ?_, rfl, rfl⟩,
+    ⟨by simp [ArrMem.value, arrC, arrT, Equiv], by decide, by decide, rfl⟩⟩
+  intro h
+  simp only [evalPureList, evalPure, lit] at h
+  revert h
+  decide
+
 /-! ### non-vacuity -/
 
 /-- a dict with str keys holding a set of ints and a tuple: inside `sortable` and `G₀` -/
